@@ -82,3 +82,10 @@ type A struct {
   tool_run (inject_file f) = Ok (render (inject_file f)) /\
   tool_run (inject_file (inject_file f)) = Ok (render (inject_file f)).
 Proof. vm_compute. repeat split; congruence. Qed.
+
+(* the merge whose idempotence C07_idempotent_merge states is the source text's (see C06_merge_from_source) *)
+From PGV Require Import Base.MiniGo Extracted.SourceFnsTags Model.GoTags Proofs.GoTagsProofs.
+Theorem C07_merge_from_source : forall t inTags : tagitems,
+  run_override fn_tagItems_override t inTags = Some (override t inTags).
+Proof. exact override_from_source. Qed.
+Print Assumptions C07_merge_from_source.
